@@ -206,7 +206,9 @@ CHECKS["C13"] = dict(
          "on both sides, the others doing anything within their frame on one side), and calculate() raises on one side iff on the other; "
          "the same with the candles going through any candle manager (collapsing timeframe, gap filling, Heikin-Ashi, lifespan in any "
          "combination: mgr_append on both sides) - timestamps, values and B's entries agree candle by candle and the next append raises alike "
-         "(from a parametricity theorem: candle management respects any reflexive relation that implies equal values, clean values and tags). "
+         "(from a parametricity theorem: candle management respects any reflexive relation that implies equal values, clean values and tags); "
+         "at the level of the container: two Hexitals with different other members and different programs that hand B the same candles and "
+         "the same calculate() calls leave B with the same candles and readings. "
          "Tie: the Hexital model (two members, the operations aimed at one of them) run "
          "against hexital.Hexital on the same histories (check_hx). Falsifier: B alone vs with A in both orders, and purge/recalculate/"
          "remove of A at the end and in the middle of the stream, incl. targeted pairs (substring names, X / X_<suffix> names, helper "
